@@ -1189,7 +1189,18 @@ pub fn run3(s: &Scn3, ctx: &mut RunCtx, prefix: &'static str) -> RunOutput {
             // (a history stretched by a slow wrapped service may have opened the breaker less than
             // the wait before the probe: being rejected is right then)
             let still_waiting = tr.iter().filter(|x| x.0 < t.first_poll_seq).last().map(|x| x.3 == 1 && t.first_poll_us <= x.1.saturating_add(wait)).unwrap_or(false);
-            if stuck == 0 && !reached && !open_for_ever && !still_waiting {
+            // "long after the last activity": a history stretched by a slow wrapped service can run
+            // into the probe; the rule needs the breaker to have been left alone for the wait
+            let last_activity = calls
+                .iter()
+                .filter(|c| c.req != n as u32)
+                .filter_map(|c| c.end_us)
+                .chain(tr.iter().map(|x| x.1))
+                .chain(rep.tasks.iter().take(n).filter(|u| u.end_seq > 0).map(|u| u.end_us))
+                .max()
+                .unwrap_or(0);
+            let quiet = t.first_poll_us > last_activity.saturating_add(wait.min(1_000_000));
+            if stuck == 0 && !reached && !open_for_ever && !still_waiting && quiet {
                 let st = tr.iter().filter(|x| x.0 < t.first_poll_seq).last().map(|x| x.3).unwrap_or(0);
                 world::violation(
                     "C09.not_stranded",
